@@ -204,7 +204,7 @@ def r_tools_noseed(inputs, params, obligation):
     return {'reproduced': bool(bad), 'bad': bad[:4]}
 
 
-def h_tools_refunds(c, pkg, n, refunds):
+def h_tools_refunds(c, pkg, n, refunds, sigflags='00'):
     """setup_amhl with a partial refund map: the hops listed get the PTLC for *their own* key and refund key, every other hop its own
     signature lock; compared with the locks the builders give for that hop alone"""
     T_, F = pkg.tools, pkg.functions
@@ -217,15 +217,15 @@ def h_tools_refunds(c, pkg, n, refunds):
         rks = {i: bytes(_ns.SigningKey(bytes([0x40 + i]) * 32).verify_key) for i in refunds}
         for pk in pubs + list(rks.values()):
             algebra.mark_point(pk)
-        res = T_.setup_amhl(seed, pubs, '00', {pubs[i]: rks[i] for i in refunds}, 600)
+        res = T_.setup_amhl(seed, pubs, sigflags, {pubs[i]: rks[i] for i in refunds}, 600)
         for i in range(n):
             entry = res[pubs[i]]
             Ti = entry[2]
-            own_adapter, own_sig = T_.make_adapter_locks_pub(pubs[i], Ti, '00')
+            own_adapter, own_sig = T_.make_adapter_locks_pub(pubs[i], Ti, sigflags)
             c.check('hop_adapter_lock_is_for_its_own_key_and_point', len(entry[0].bytes) == len(own_adapter.bytes) and
                     bytes_eq(entry[0].bytes, own_adapter.bytes), hop=i)
             if i in refunds:
-                want = T_.make_ptlc_lock(pubs[i], rks[i], timeout=600, sigflags='00')
+                want = T_.make_ptlc_lock(pubs[i], rks[i], timeout=600, sigflags=sigflags)
             else:
                 want = own_sig
             c.check('hop_lock_is_for_its_own_key', len(entry[1].bytes) == len(want.bytes) and bytes_eq(entry[1].bytes, want.bytes),
@@ -242,11 +242,12 @@ def r_tools_refunds(inputs, params, obligation):
     rks = {i: RF.derive_point_from_scalar(RF.derive_key_from_seed(bytes([0x40 + i]) * 32)) for i in refunds}
     bad = []
     with pinned_clock(1000):
-        res = RT.setup_amhl(inputs.get('seed', b'seed'), pubs, '00', {pubs[i]: rks[i] for i in refunds}, 600)
+        sfl = params.get('sigflags', '00')
+        res = RT.setup_amhl(inputs.get('seed', b'seed'), pubs, sfl, {pubs[i]: rks[i] for i in refunds}, 600)
         for i in range(n):
             e = res[pubs[i]]
-            a, s_ = RT.make_adapter_locks_pub(pubs[i], e[2], '00')
-            want = RT.make_ptlc_lock(pubs[i], rks[i], timeout=600, sigflags='00') if i in refunds else s_
+            a, s_ = RT.make_adapter_locks_pub(pubs[i], e[2], sfl)
+            want = RT.make_ptlc_lock(pubs[i], rks[i], timeout=600, sigflags=sfl) if i in refunds else s_
             if e[0].bytes != a.bytes:
                 bad.append(('adapter_lock', i))
             if e[1].bytes != want.bytes:
@@ -365,6 +366,7 @@ HARNESSES = [
     HarnessSpec('sample', h_sample, lambda t: [{'slen': n, 'i': i} for n in ((1, 32, 33, 40) if t == 'quick' else (1, 3, 31, 32, 33, 40, 64, 65))
                                                for i in (0, 1, 300)], witness_replay=True, replay=r_sample, signature=_sig),
     HarnessSpec('tools_refunds', h_tools_refunds, lambda t: [{'n': 3, 'refunds': r} for r in ([], [0], [1], [2], [0, 2], [0, 1, 2])] +
+                [{'n': 3, 'refunds': r, 'sigflags': f} for r, f in (([0, 2], '01'), ([1], '82'), ([], '01'))] +
                 ([{'n': 4, 'refunds': r} for r in ([0], [1, 2], [0, 3])] if t != 'quick' else []), witness_replay=True, replay=r_tools_refunds, signature=_sig,
                 fallback=lambda params, rng: {'seed': rng.randbytes(32)}),
     HarnessSpec('tools_noseed', h_tools_noseed, lambda t: [{'n': n} for n in ((2, 3) if t == 'quick' else (2, 3, 4))], witness_replay=True, replay=r_tools_noseed,
